@@ -71,7 +71,22 @@ func init() {
 					ph := phones[rr.Intn(nkeys)]
 					t := l.dial(ph, 0)
 					t.serial = rr.Intn(65000)
-					switch rr.Intn(6) {
+					switch rr.Intn(9) {
+					case 6: // a terminal-sent 0x8003 ahead of the joining heartbeat, both in one write, then an immediate reset:
+						// the writer's first write fails while the reader is joining
+						f := append(t.frame(0x8003, []byte{0, 1, 1, 0, 2}), t.frame(0x0002, nil)...)
+						t.send(f)
+						t.close(true)
+					case 7: // registers, and registers again later on the same connection (an ordinary message the second time)
+						reg := append(make([]byte, 25+8), []byte("A12345")...)
+						t.send(t.frame(0x0100, reg))
+						t.waitRecv(1, 20*time.Millisecond)
+						t.send(t.frame(0x0100, reg))
+						time.Sleep(time.Duration(rr.Intn(1500)) * time.Microsecond)
+						t.send(t.frame(0x0002, nil))
+					case 8: // registers twice back to back in one write
+						reg := append(make([]byte, 25+8), []byte("B6")...)
+						t.send(append(t.frame(0x0100, reg), t.frame(0x0100, reg)...))
 					case 0: // never sends anything: no join, leaves with no key
 					case 1: // first message is a sub-package part (joins without a read callback)
 						t.send(buildFrame(hdrSpec{id: 0x0801, serial: t.nextSerial(), frag: 1, total: 2, no: 1, phone: ph, body: []byte{1, 2, 3}}))
